@@ -17,6 +17,20 @@
 (* schedule used to emit behaviours for replay (FNext) and by the trace    *)
 (* specification TxPoolTrace.tla.                                          *)
 (*                                                                         *)
+(* Actions (Go function mirrored):                                         *)
+(*   AddTx          TxPool.AddLocal / AddRemote -> addTxs -> add           *)
+(*   SetGasPrice    TxPool.SetGasPrice                                     *)
+(*   EvictLifetime  loop(): case <-evict.C                                 *)
+(*   HeadEvent      loop(): case <-chainHeadCh -> requestReset (coalesced  *)
+(*                  by scheduleReorgLoop) = RequestReset                   *)
+(*   SendUnblock / LoopRecvPromote   reqPromoteCh (RequestPromote)         *)
+(*   Tick, Launch   scheduleReorgLoop: ReorgFrequency ticker, launch       *)
+(*   RunReorg       runReorg: reset (incl. re-injection of reorged-out     *)
+(*                  transactions), promoteExecutables,                     *)
+(*                  demoteUnexecutables, truncatePending, truncateQueue    *)
+(* removeTx has no public entry point: it is the operator RemoveTx used by *)
+(* add (discard), SetGasPrice, the eviction tick and truncateQueue.        *)
+(*                                                                         *)
 (* go-quai specifics modelled as they are (differences to go-ethereum):    *)
 (*  - addTxs holds pool.mu for the whole call, including the send of the   *)
 (*    promote request; a promote request does NOT launch a run, only the   *)
@@ -27,7 +41,15 @@
 (*  - truncateQueue does not spare local accounts and starts with the most *)
 (*    recently active account;                                             *)
 (*  - the eviction tick also drops whole pending lists;                    *)
-(*  - removeTx removes BY NONCE from the pending list.                     *)
+(*  - removeTx removes BY NONCE from the pending list;                     *)
+(*  - demoteUnexecutables only looks for a gap in FRONT of a pending list  *)
+(*    (see HolesOnlyFromRefusedReinject: a known finding).                 *)
+(* Not modelled: Qi transactions, the journal, poolLimiterGoroutine, the   *)
+(* order inside the price heaps (which remote transactions a full pool     *)
+(* discards is any set of the needed size; `priced` is the set of entries  *)
+(* pushed since the last re-heap, an upper bound of the heaps' content).   *)
+(* A quiescent point: no request outstanding and one full run completed    *)
+(* after the last mutation (Quiescent).                                    *)
 (***************************************************************************)
 EXTENDS Integers, Sequences, FiniteSets, TLC, SequencesExt, Json
 
